@@ -486,6 +486,13 @@ func (s *AbsfsNFS) WriteWithContext(ctx context.Context, node *NFSNode, offset i
 
 	n, err := f.WriteAt(data, offset)
 	if err == nil {
+		// The WRITE reply says FILE_SYNC, so the data must be on stable storage
+		// before it is acknowledged.
+		if syncErr := f.Sync(); syncErr != nil {
+			return int64(n), fmt.Errorf("write: failed to sync %s: %w", node.path, syncErr)
+		}
+	}
+	if err == nil {
 		// Invalidate cache after successful write
 		s.attrCache.Invalidate(node.path)
 
